@@ -275,6 +275,12 @@ pub fn run(rep: &mut Report) {
         let ov: [i128; 12] = [0, 1, -1, NS_S, -9 * NS_S, 86_400 * NS_S, 2 * 86_400 * NS_S, -5 * 3_600 * NS_S, 86_400 * NS_S + 99, 10 * NS_S + 100_000_000, 1_003, -7_200 * NS_S];
         crate::engine::order_pairs(rep, "c11.order", 12 + 6, |i, out| if i < 12 { j_text(ov[i as usize], out) } else { j_spelling(((i - 12) * 4) as usize, (i % 5) as usize, i % 2 == 0, out) });
     }
+    // interior scan (round 8): evenly spread, unremarkable durations within 10 000 years (uniform and per binade)
+    {
+        let nsc: u64 = if deep { 10_000_000 } else { 600_000 };
+        rep.bound("interior_scan_points", nsc);
+        sweep(rep, "c11.scan_text", nsc, |i, out| j_text(if i % 2 == 0 { lattice::scan_point(i / 2, 0, -years10k, years10k) } else { lattice::scan_magnitude(i / 2, 1, 0, 68).clamp(-years10k, years10k) }, out));
+    }
     let nv = VALUES.len() as u64;
     sweep(rep, "c11.spelling", 25 * nv * 2, |i, out| j_spelling((i / (2 * nv)) as usize, ((i / 2) % nv) as usize, i % 2 == 1, out));
     sweep(rep, "c11.combo", 127 * 3 * 2, |i, out| j_combo((i / 6) as u32 + 1, ((i / 2) % 3) as usize, i % 2 == 1, out));
